@@ -255,8 +255,13 @@ SelectedBy(a, s) == CASE a.op \in {"remove", "update"} -> Sel(s, a.q, a.m)
 (* fail = k > 0: the update callable raises on the k-th selected point;    *)
 (* fail = -k: it returns an invalid value there; either only happens if at *)
 (* least k points are selected)                                            *)
+(* op "bad": a wrongly typed value supplied through API entry `entry` in   *)
+(* slot `slot` (C14).  It must be rejected with ValueError / TypeError;    *)
+(* entries that hand the value over through an update callable only get to *)
+(* see it when a point is selected (needsel = 1).                          *)
 MustRaise(a, s) ==
-  CASE a.op = "insert_multiple" -> a.bad = 1
+  CASE a.op = "bad" -> IF a.needsel = 1 THEN Sel(s, a.q, a.m) # {} ELSE TRUE
+    [] a.op = "insert_multiple" -> a.bad = 1
     [] a.op \in {"update", "update_all"} ->
          UpdateIsEmpty(a.u) \/ (a.fail # 0 /\ Cardinality(SelectedBy(a, s)) >= (IF a.fail < 0 THEN 0 - a.fail ELSE a.fail))
     [] OTHER -> FALSE
@@ -278,6 +283,7 @@ Result(a, s) ==
     [] a.op \in {"remove", "drop_measurement"} -> Cardinality(SelectedBy(a, s))
     [] a.op = "remove_all" -> NoneV
     [] a.op \in {"update", "update_all"} -> UpdateCount(s, SelectedBy(a, s), a.u)
+    [] a.op = "bad" -> 0                         \* only reached when nothing was selected
     [] a.op \in {"reindex", "reopen", "close"} -> NoneV
     [] a.op = "search"   -> SearchRes(s, a.q, a.m, a.sorted = 1)
     [] a.op = "count"    -> CountRes(s, a.q, a.m)
@@ -306,6 +312,7 @@ Step(a) ==
                               ELSE Update(Atom("tag", 0, "noop", 0), NoneV, a.u)
     [] a.op = "reindex" -> IF ixValid THEN UNCHANGED vars ELSE Reindex
     [] a.op \in IndexingReads -> Read
+    [] a.op = "bad" -> IF a.entry \in {"ctor", "setter"} THEN UNCHANGED vars ELSE Fails
     [] OTHER -> UNCHANGED vars
 
 (* Envelope for the validity flag of a real execution (C06): what the      *)
